@@ -437,6 +437,8 @@ class ModelMixin:
 
     def b_class_type(self, a, k):
         v = a[0]
+        if v is None:
+            return ClassRef(builtin="NoneType")
         if isinstance(v, Obj):
             return ClassRef(v.cls) if v.cls is not None else ClassRef(builtin=v.builtin_cls)
         if isinstance(v, Sym) and v.kind == "ev" and v.cls is not None:
